@@ -98,6 +98,22 @@ var c01Hand = []string{
 	`let y=a; func g(x) if x<b then y else [let y=x+1; y][0]+y; g(c)`,
 	`let y=a; let f=x->let g=z->[y, let y=z+x; y][1]+y; g(b); f(c)`,
 	`let y=a; (y->y*2)(b)+(x->let y=x+1; y)(c)+y`,
+	// a lazy closure-calling stage bound by let, further argument-dependent lets, then the consumption
+	`let l=[a,b,c].combine((p,q)->p+q); let u=a*2; let v=b*3; l.sum()+u*100+v*10000`,
+	`let l=[a,b,c].map(e->e+1); let u=a*2; let v=b*3; l.sum()+u*100+v*10000`,
+	`let l=[a,b,c].number((i,e)->e*i); let u=a-1; let v=c*5; [l.sum(),u,v]`,
+	`let l=[a,b,c].combine3((p,q,r)->p-q+r); let u=a+7; let v=u*b; [l.first(),u,v]`,
+	`let l=[a,b,c].iir(e->e,(e,o)->o*2+e); let u=b; let v=c-a; [l.last(),u,v]`,
+	`let l=[a,b,c].accept(e->e>b); let u=a*a; let v=u+c; [l.size(),u,v]`,
+	`let l=[a,b,c].compact((p,q)->p=q); let u=c; let v=u-b; [l.size(),u,v]`,
+	`let l=[a,b].cross([c,1],(p,q)->p*q); let u=a+b; let v=u*c; [l.sum(),u,v]`,
+	`let l=[a,b,c].merge([b],(p,q)->p<q); let u=a*3; let v=b+u; [l.first(),u,v]`,
+	`let l=[a,b,c].combineN(2,w->w[0]-w[1]); let u=a; let v=b*b; [l.sum(),u,v]`,
+	`func g(x) let l=[x,a].combine((p,q)->p*q); let u=x+1; let v=u+b; l.sum()+u*10+v*100; g(c)`,
+	// recursion from inside a nested closure or an inner func
+	`func f(n) if n<=0 then a else [1].map(e->f(n-1)+e)[0]; f(2)+b`,
+	`func f(n) let g=k->if k<=0 then b else f(k-1)+1; g(n); f(3)+a`,
+	`func f(n) func h(k) if k<=0 then c else f(k-1)*2; h(n); f(2)`,
 	// constant conditions that are no bools are errors, not the else branch
 	`if 1 then a else b`,
 	`(x->if "s" then x else 0)(a)`,
